@@ -3,8 +3,10 @@ import NucleoVerif.Props.C07_ParseTranslated
 
 `C07_ParseTranslated` proves that the functions translated from `Atom::parse` on every run (`Gen/Parse.lean`) are the
 model's `stripNeg`, `stripKind`, `stripDollar` and that `parseAtom` assembles them as the source does; restated here so that
-a change of `Atom::parse` is a broken obligation of C14 as well. -/
+a change of `Atom::parse` is a broken obligation of C14 as well; and the per-character bookkeeping of the grapheme loop of
+`new_inner` (`fold_char`, translated from both places where the source has it) is the model's `foldChar`. -/
 namespace NucleoVerif
+open Gen
 
 /-- **`Atom::parse` is `parseAtom`** (see `C07_translated_parse`) -/
 theorem C14_translated_parse (seg : Seg) (raw : List Nat) (case : CaseMatching) (norm : Normalization) :
@@ -17,5 +19,17 @@ theorem C14_translated_parse (seg : Seg) (raw : List Nat) (case : CaseMatching) 
     (∀ a, Gen.Parse.invert a = stripNeg a) ∧ (∀ a, Gen.Parse.kind a = ((stripKind a).1.id, (stripKind a).2)) ∧
     (∀ k a, Gen.Parse.dollar k.id a = ((stripDollar k a).1.id, (stripDollar k a).2.1, (stripDollar k a).2.2)) :=
   ⟨(C07_translated_parse seg raw case norm).2.2.1, C07_translated_invert, C07_translated_kind, C07_translated_dollar⟩
+
+def CaseMatching.id : CaseMatching → Nat
+  | .respect => 0 | .ignore => 1 | .smart => 2
+def Normalization.id : Normalization → Nat
+  | .never => 0 | .smart => 1
+
+/-- **the per-character bookkeeping of the grapheme loop** (case folding or the smart-case test first, then the smart-normalization test on
+    the character that is pushed), translated from both places where `new_inner` has it, **is the model's `foldChar`** -/
+theorem C14_translated_fold_char (case : CaseMatching) (norm : Normalization) (c : Nat) (ic nz : Bool) :
+    Gen.Parse.fold_char toLower isUpper normalizeLatin case.id norm.id c ic nz = foldChar case norm c ic nz := by
+  unfold Gen.Parse.fold_char foldChar
+  cases case <;> cases norm <;> simp [CaseMatching.id, Normalization.id] <;> congr 1
 
 end NucleoVerif
